@@ -866,6 +866,24 @@ func inlineNewHelpers(c *Ctx, known map[string]bool, seq *int) (out map[string][
 				src = b
 			}
 			in := &inliner{c: c, p: p, file: f, src: src, callees: callees, seq: seq, base: c.Fset.File(f.Pos()).Base()}
+			// first, calls of one-expression helpers are replaced by that expression wherever they stand (also under
+			// && and ||, where a statement-level expansion cannot go); statement-level expansion follows in the next round
+			for _, d := range f.Decls {
+				if fd, ok := d.(*ast.FuncDecl); ok && fd.Body != nil {
+					in.cur = fd
+					in.exprInline(fd.Body)
+				}
+			}
+			if len(in.edits) > 0 {
+				res, err := applyEdits(src, in.edits, in.addImports, f, c.Fset)
+				if err != nil {
+					notes = append(notes, fmt.Sprintf("%s: %v", fname, err))
+					continue
+				}
+				out[fname] = res
+				notes = append(notes, in.notes...)
+				continue
+			}
 			for _, d := range f.Decls {
 				if fd, ok := d.(*ast.FuncDecl); ok && fd.Body != nil {
 					in.cur = fd
@@ -980,6 +998,14 @@ func (in *inliner) stmt(s ast.Stmt, labelled bool) {
 			in.stmt(x.Else, true) // an else-if cannot be wrapped in a block of its own textually; leave its header alone
 		}
 	case *ast.ForStmt:
+		if x.Cond != nil && in.findCall(x.Cond) != nil {
+			// `for c() { … }` becomes `for { if !(c()) { break }; … }`: the call is then in an if header, where the next
+			// round expands it (the condition is still evaluated before every iteration, after the post statement)
+			cond := in.text(x.Cond)
+			in.edits = append(in.edits, textEdit{in.off(x.Cond.Pos()), in.off(x.Cond.End()), ""})
+			in.edits = append(in.edits, textEdit{in.off(x.Body.Lbrace) + 1, in.off(x.Body.Lbrace) + 1, "\nif !(" + cond + ") {\nbreak\n}\n"})
+			return
+		}
 		if !labelled && x.Init != nil {
 			in.header(s, x.Init, nil)
 		}
@@ -1642,4 +1668,202 @@ func isForwardingLit(fl *ast.FuncLit) bool {
 		}
 	}
 	return true
+}
+
+
+// ---- expression-level expansion of one-expression helpers
+
+// simpleOperand: an expression that can be written several times, or not at all, without changing behaviour:
+// identifiers, selector chains, literals, and & - ! * of those.
+func simpleOperand(e ast.Expr) bool {
+	switch x := e.(type) {
+	case *ast.Ident, *ast.BasicLit:
+		return true
+	case *ast.SelectorExpr:
+		return simpleOperand(x.X)
+	case *ast.ParenExpr:
+		return simpleOperand(x.X)
+	case *ast.UnaryExpr:
+		return (x.Op == token.AND || x.Op == token.SUB || x.Op == token.NOT) && simpleOperand(x.X)
+	case *ast.StarExpr:
+		return simpleOperand(x.X)
+	}
+	return false
+}
+
+// exprBodyOf: the single returned expression of a helper whose body is `return <expr>` with nothing in it that has an
+// effect or could panic differently when duplicated (no calls except conversions and len/cap, no literals of functions,
+// no receives, no index or slice expressions, no division).
+func (in *inliner) exprBodyOf(ce *inlCallee) ast.Expr {
+	fd := ce.fd
+	if fd.Body == nil || len(fd.Body.List) != 1 || fd.Type.Results == nil || len(fd.Type.Results.List) != 1 || len(fd.Type.Results.List[0].Names) > 1 {
+		return nil
+	}
+	if fd.Type.Params != nil {
+		for _, f := range fd.Type.Params.List {
+			if _, variadic := f.Type.(*ast.Ellipsis); variadic {
+				return nil
+			}
+		}
+	}
+	ret, ok := fd.Body.List[0].(*ast.ReturnStmt)
+	if !ok || len(ret.Results) != 1 {
+		return nil
+	}
+	pure := true
+	ast.Inspect(ret.Results[0], func(n ast.Node) bool {
+		switch x := n.(type) {
+		case *ast.CallExpr:
+			// conversions and len/cap only
+			if tv, ok := in.p.TypesInfo.Types[x.Fun]; ok && tv.IsType() {
+				return true
+			}
+			if id, ok := x.Fun.(*ast.Ident); ok {
+				if _, isB := in.p.TypesInfo.Uses[id].(*types.Builtin); isB && (id.Name == "len" || id.Name == "cap") {
+					return true
+				}
+			}
+			pure = false
+		case *ast.FuncLit, *ast.IndexExpr, *ast.SliceExpr, *ast.TypeAssertExpr, *ast.CompositeLit:
+			pure = false
+		case *ast.UnaryExpr:
+			if x.Op == token.ARROW {
+				pure = false
+			}
+		case *ast.BinaryExpr:
+			if x.Op == token.QUO || x.Op == token.REM {
+				pure = false
+			}
+		case *ast.StarExpr:
+			pure = false
+		}
+		return pure
+	})
+	if !pure {
+		return nil
+	}
+	return ret.Results[0]
+}
+
+func (in *inliner) exprInline(root ast.Node) {
+	info := in.p.TypesInfo
+	ast.Inspect(root, func(n ast.Node) bool {
+		call, ok := n.(*ast.CallExpr)
+		if !ok {
+			return true
+		}
+		ce := in.callees[calleeObj(in.p, call)]
+		if ce == nil || call.Ellipsis.IsValid() {
+			return true
+		}
+		body := in.exprBodyOf(ce)
+		if body == nil {
+			return true
+		}
+		// parameter objects in order, receiver first
+		var params []types.Object
+		var args []ast.Expr
+		if ce.fd.Recv != nil && len(ce.fd.Recv.List) == 1 {
+			sel, ok := ast.Unparen(call.Fun).(*ast.SelectorExpr)
+			if !ok {
+				return true
+			}
+			if len(ce.fd.Recv.List[0].Names) == 1 {
+				params = append(params, info.Defs[ce.fd.Recv.List[0].Names[0]])
+			} else {
+				params = append(params, nil)
+			}
+			args = append(args, sel.X)
+		}
+		if ce.fd.Type.Params != nil {
+			for _, f := range ce.fd.Type.Params.List {
+				if len(f.Names) == 0 {
+					params = append(params, nil)
+				}
+				for _, nm := range f.Names {
+					params = append(params, info.Defs[nm])
+				}
+			}
+		}
+		args = append(args, call.Args...)
+		if len(args) != len(params) {
+			return true
+		}
+		for _, a := range args {
+			if !simpleOperand(a) {
+				return true
+			}
+		}
+		// the receiver of a method expression helper: pointer/value adjustment is not attempted
+		if ce.fd.Recv != nil {
+			if tv, ok := info.Types[args[0]]; ok {
+				if recvT := info.TypeOf(ce.fd.Recv.List[0].Type); recvT != nil && !types.Identical(tv.Type, recvT) {
+					return true
+				}
+			}
+		}
+		// callee source text
+		cfile := in.c.Fset.File(ce.fd.Pos())
+		if cfile == nil {
+			return true
+		}
+		csrc := in.c.Cfg.Overlay[cfile.Name()]
+		if csrc == nil {
+			b, err := os.ReadFile(cfile.Name())
+			if err != nil {
+				return true
+			}
+			csrc = b
+		}
+		type sub struct {
+			from, to int
+			text     string
+		}
+		var subs []sub
+		okAll := true
+		ast.Inspect(body, func(m ast.Node) bool {
+			id, ok := m.(*ast.Ident)
+			if !ok {
+				return true
+			}
+			o := info.Uses[id]
+			if o == nil {
+				return true
+			}
+			for k, po := range params {
+				if po != nil && po == o {
+					at := in.text(args[k])
+					// a literal argument keeps the parameter's type
+					if _, isLit := args[k].(*ast.BasicLit); isLit {
+						if b, isBasic := po.Type().Underlying().(*types.Basic); isBasic && po.Type() == types.Type(b) {
+							at = b.Name() + "(" + at + ")"
+						} else {
+							okAll = false
+						}
+					}
+					subs = append(subs, sub{cfile.Offset(id.Pos()), cfile.Offset(id.End()), "(" + at + ")"})
+				}
+			}
+			return true
+		})
+		if !okAll {
+			return true
+		}
+		from, to := cfile.Offset(body.Pos()), cfile.Offset(body.End())
+		if from < 0 || to > len(csrc) {
+			return true
+		}
+		sort.Slice(subs, func(i, j int) bool { return subs[i].from < subs[j].from })
+		var sb strings.Builder
+		at := from
+		for _, su := range subs {
+			sb.Write(csrc[at:su.from])
+			sb.WriteString(su.text)
+			at = su.to
+		}
+		sb.Write(csrc[at:to])
+		in.edits = append(in.edits, textEdit{in.off(call.Pos()), in.off(call.End()), "(" + sb.String() + ")"})
+		in.notes = append(in.notes, fmt.Sprintf("call of new one-expression function %s in %s (%s) replaced by its expression", ce.obj.FullName(), in.cur.Name.Name, in.c.Pos(call.Pos())))
+		return false
+	})
 }
